@@ -159,18 +159,16 @@ Section EP.
   Definition prior_count (occ include : bool) (fs : list (list var)) (v : var) : nat :=
     (if occ then count_in v (concat fs) else length (filter (has_var v) fs))
     + (if include then 1 else 0).
-  Fixpoint insert_sorted (v : var) (l : list var) : list var :=
-    match l with
-    | [] => [v]
-    | w :: l' => if Nat.ltb v w then v :: l else if Nat.eqb v w then l else w :: insert_sorted v l'
-    end.
-  (* sorted(self.priors): distinct priors in id order *)
-  Definition sorted_vars (fs : list (list var)) : list var := fold_right insert_sorted [] (concat fs).
-  (* model factors, then one prior factor per distinct prior.  The harness indexes prior factors by
-     descending id; their position inside the real graph (a reversed set iteration) only fixes the
-     default visiting order, which every case supplies explicitly as [order] *)
-  Definition graph_factors (include : bool) (fs : list (list var)) : list (list var) :=
-    map (nodup Nat.eq_dec) fs ++ (if include then map (fun v => [v]) (rev (sorted_vars fs)) else []).
+  (* model factors, then one prior factor per distinct prior: [pf] lists the priors of the prior
+     factors.  The real graph orders them by a reversed set iteration (sorted() over Prior objects,
+     whose < builds an assertion); that position only fixes the default visiting order, which every
+     case supplies explicitly, so [pf] is an input that must satisfy [pf_ok] *)
+  Definition graph_factors (include : bool) (fs : list (list var)) (pf : list var) : list (list var) :=
+    map (nodup Nat.eq_dec) fs ++ (if include then map (fun v => [v]) pf else []).
+  Fixpoint nodupb (l : list var) : bool :=
+    match l with [] => true | v :: l' => negb (has_var v l') && nodupb l' end.
+  Definition pf_ok (fs : list (list var)) (pf : list var) : bool :=
+    nodupb pf && forallb (fun v => has_var v pf) (concat fs) && forallb (fun v => has_var v (concat fs)) pf.
   Definition prior_of (priors : mf) (v : var) (dflt : G) : G :=
     match get v priors with Some g => g | None => dflt end.
   (* message_dict: prior.message ** (1 / (count - 1)) if count > 1 else prior.message *)
@@ -179,8 +177,8 @@ Section EP.
     if Nat.ltb 1 c then gscale (Q2Qc (1 # Pos.of_nat (c - 1))) (prior_of priors v dflt)
     else prior_of priors v dflt.
   (* EPMeanField.from_approx_dists(graph, message_dict) *)
-  Definition init_state (occ include : bool) (fs : list (list var)) (priors : mf) (dflt : G) : state :=
-    map (fun f => map (fun v => (v, init_msg occ include fs priors dflt v)) f) (graph_factors include fs).
+  Definition init_state (occ include : bool) (fs : list (list var)) (pf : list var) (priors : mf) (dflt : G) : state :=
+    map (fun f => map (fun v => (v, init_msg occ include fs priors dflt v)) f) (graph_factors include fs pf).
 
   (* ---------- EPOptimiser.run with scripted factor optimisers; EPHistory ---------- *)
   Inductive outcome :=
@@ -448,7 +446,7 @@ Inductive case :=
        (steps : list rstep)
        (obs_final : list obs_mf)
 (* a declarative graph: initial state, then EPOptimiser.run with scripted optimisers *)
-| CDecl (priors : list (var * (Q * Q))) (model_factors : list (list var)) (include : bool)
+| CDecl (priors : list (var * (Q * Q))) (model_factors : list (list var)) (include : bool) (pf : list var)
         (obs_state0 : list obs_mf) (obs_cavity0 : list obs_mf)
         (rd : rdelta) (order : list nat) (max_steps : nat) (stop : option (nat * nat))
         (scripts : list (list (outcome (Q * Q))))
@@ -466,15 +464,16 @@ Definition check_case (c : case) : bool :=
       st_close tol0 st0 o0 && mf_close tol0 (n_global st0) g0 && ok
       && st_close (tol_of (st_mag st0 + st_mag stn
                            + fold_right (fun s acc => mf_mag (in_mf (r_new s)) + acc) 0 steps)%Z) stn ofin
-  | CDecl priors fs include o0 c0 rd order max_steps stop scripts olog ofin oacc groups ogroups =>
+  | CDecl priors fs include pf o0 c0 rd order max_steps stop scripts olog ofin oacc groups ogroups =>
       let pri := in_mf priors in
-      let st0 := init_state N2 n_scale code_counts_occurrences include fs pri n_zero in
+      let st0 := init_state N2 n_scale code_counts_occurrences include fs pf pri n_zero in
       let tol0 := tol_of (st_mag st0 + mf_mag pri)%Z in
       let sc := map (map in_outcome) scripts in
       let dl := delta_of rd st0 in
       let '(stn, log) := run N2 n_add n_opp n_scale n_valid max_steps dl sc stop order st0 [] in
       let mag := (st_mag st0 + mf_mag pri + scripts_mag sc)%Z in
-      st_close tol0 st0 o0
+      (negb include || pf_ok fs pf)
+      && st_close tol0 st0 o0
       && st_close tol0 (map (fun i => n_cavity i st0) (seq 0 (length st0))) c0
       && log_close log olog mag
       && st_close (tol_of (mag + st_mag stn)%Z) stn ofin
